@@ -591,11 +591,13 @@ impl Prop for P {
     }
     fn gen(&self, rng: &mut Rng, tier: Tier, n: usize, emit: &mut dyn FnMut(String)) {
         let n = default_n(tier, 1200, 12_000, n);
-        gen_drp(rng, tier, emit);
-        gen_pos(rng, tier, emit);
-        gen_nl(emit);
-        gen_prove(rng, tier, n / 3, emit);
-        gen_e2e(rng, tier, n, emit);
+        let mut groups: Vec<Vec<String>> = vec![vec![], vec![], vec![], vec![], vec![]];
+        gen_drp(rng, tier, &mut |l| groups[0].push(l));
+        gen_pos(rng, tier, &mut |l| groups[1].push(l));
+        gen_nl(&mut |l| groups[2].push(l));
+        gen_prove(rng, tier, n / 3, &mut |l| groups[3].push(l));
+        gen_e2e(rng, tier, n, &mut |l| groups[4].push(l));
+        emit_interleaved(groups, emit);
     }
     fn exec(&self, line: &str) -> Outcome {
         let t: Vec<&str> = line.split(' ').collect();
